@@ -59,6 +59,10 @@ type Config struct {
 	// user list can be reloaded while it runs (Env.ReloadUsers), which the
 	// apis/server facade does not offer.
 	ServerMux bool `json:"serverMux,omitempty"`
+	// ServerBanner (only with ServerMux): a server application that speaks
+	// first - the moment it gets a connection from Accept it writes these bytes,
+	// before it reads the request.
+	ServerBanner []byte `json:"-"`
 	// Quotas[i] (days, megabytes pairs) are attached to server user i.
 	Quotas map[int][][2]int32 `json:"quotas,omitempty"`
 }
@@ -189,6 +193,7 @@ func StartServer(cfg Config, sn *simnet.StreamNet, pn *simnet.PacketNet) (*Env, 
 		if err != nil {
 			return nil, err
 		}
+		ms.banner = cfg.ServerBanner
 		e.Server, e.SrvMux = ms, ms.mux
 		e.acceptWG.Add(1)
 		go e.acceptLoop()
@@ -214,6 +219,7 @@ func StartServer(cfg Config, sn *simnet.StreamNet, pn *simnet.PacketNet) (*Env, 
 type muxServer struct {
 	mux     *protocol.Mux
 	running atomic.Bool
+	banner  []byte
 }
 
 func newMuxServer(cfg *pb.ServerConfig, slf *simnet.StreamNet, plf simnet.ServerFactory) (*muxServer, error) {
@@ -255,6 +261,11 @@ func (ms *muxServer) Accept() (net.Conn, *model.Request, error) {
 	conn, err := ms.mux.Accept()
 	if err != nil {
 		return nil, nil, err
+	}
+	if len(ms.banner) > 0 {
+		if _, err := conn.Write(append([]byte(nil), ms.banner...)); err != nil {
+			return nil, nil, err
+		}
 	}
 	common.SetReadTimeout(conn, 10*time.Second)
 	defer common.SetReadTimeout(conn, 0)
